@@ -17,6 +17,8 @@ func (r *verifRun) plan(n int, alphabet []int) []int {
 		ev := alphabet[verifrt.Choice("event", len(alphabet))]
 		// sequences that cannot happen or add nothing are cut here, before anything runs
 		verifrt.Assume(!(ev == verifEvTick && termSeen))          // the first SIGTERM iteration stops the ticker
+		verifrt.Assume(!(ev == verifEvHup && termSeen))           // topic_discoverer forwards no SIGHUP after SIGTERM
+		verifrt.Assume(!(ev == verifEvTerm && termSeen))          // termChan is closed once
 		verifrt.Assume(!(ev == verifEvTerm && r.cfg.starved))     // (native consumer with a fake starved connection cannot Stop())
 		verifrt.Assume(!(ev == verifEvIntrude && !r.cfg.workDir)) // no hand-off, nothing to collide with
 		termSeen = termSeen || ev == verifEvTerm
@@ -40,8 +42,11 @@ func (r *verifRun) drive(plan []int, bodyLen int) {
 		if i == r.breakBefore {
 			r.broke = r.breakOpenFile(r.breakVoid)
 		}
-		if ev == verifEvTick && r.tickStopped {
-			verifrt.Assume(false) // the ticker is stopped by the first SIGTERM iteration
+		if i == r.limitBefore {
+			r.limitFileSize(r.limitRoom)
+		}
+		if (ev == verifEvTick && r.tickStopped) || (r.termClosed && (ev == verifEvTick || ev == verifEvHup || ev == verifEvTerm)) {
+			verifrt.Assume(false) // the ticker is stopped by the first SIGTERM iteration; no SIGHUP, no second SIGTERM after it
 		}
 		if ev == verifEvTerm && r.cfg.starved {
 			verifrt.Assume(false) // native consumer with a fake starved connection cannot Stop()
@@ -78,12 +83,14 @@ func verifC19FinAfterSync() {
 	r.start(r.newLogger("t"))
 	r.drive(evs, verifrt.Bound("symbolic-body-bytes", 1, 2))
 	verifrt.Observe("finished", r.nFin)
+	verifrt.Reach("a-message-after-sigterm-is-written-and-finished", r.lateFin > 0 && r.nFin >= 2)
 	verifrt.Reach("a-message-was-finished", r.nFin > 0)
 	verifrt.Reach("two-finished-in-one-sync", r.nFin >= 2 && verifGhost(r.syncs == 1) && !cfg.gzip)
 	verifrt.Reach("gzip-finished", r.nFin > 0 && cfg.gzip)
 	verifrt.Reach("written-but-not-yet-finished", len(r.msgs) > r.nFin)
 	verifrt.Reach("handed-off-to-output-dir", verifGhost(r.links > 0) && r.nFin > 0)
 	verifrt.Reach("reopened-after-hup", r.nFin >= 2 && verifGhost(r.syncs >= 3))
+	verifrt.Reach("stopped-after-sigterm-with-a-late-message", r.lateFin == 1 && r.routerExited)
 	verifrt.Reach("hand-off-name-taken-meanwhile", r.intrusions > 0 && verifGhost(r.links > 0) && r.nFin > 0)
 }
 
@@ -139,12 +146,15 @@ func verifC19Rotation() {
 	verifrt.Reach("unfinished-message-carried-over-a-rotation", r.carried > 0)
 }
 
-// VerifC19_Faults: one of the fallible disk operations (open, write - possibly partial -,
-// gzip member write, fsync, close, stat, link, remove) fails, at any position of any event
+// VerifC19_Faults: one of the fallible disk operations (open, write of a gzip member - possibly
+// partial -, fsync, close, stat, link, remove) fails, at any position of any event
 // sequence. nsq_to_file answers every such failure by exiting; whatever it does, no FIN may be
 // issued for a message whose record is not durable, and at the instant of the exit every
 // finished message and every pre-existing file must survive. (Disk-model only: a real disk
-// cannot be made to fail on demand, so a counterexample here cannot be replayed natively.)
+// cannot be made to fail these operations on demand, so a counterexample here cannot be replayed
+// natively. The faults a real kernel can be made to produce are checked where they replay: a
+// failing or short write(2) of a plain output file in VerifC19_FileSizeLimit, a file on which
+// every write and/or fsync fails in VerifC19_BrokenFile.)
 func VerifC19_Faults() { verifrt.Atomic(verifC19Faults) }
 
 func verifC19Faults() {
@@ -241,4 +251,5 @@ func verifC19ManyPending() {
 	verifrt.Reach("batch-of-three-finished-after-one-fsync", r.nFin >= 4 && verifGhost(r.syncs == 2) && !cfg.gzip)
 	verifrt.Reach("buffer-filled-and-flushed", r.nFin == k+1 && len(r.msgs) == k+1)
 	verifrt.Reach("gzip-batch", r.nFin >= 4 && cfg.gzip && verifGhost(r.gzCloses <= 4))
+	verifrt.Reach("late-message-after-a-batch-finished-by-sigterm", r.lateFin == 1 && r.nFin >= 4 && r.nFin == len(r.msgs))
 }
